@@ -80,6 +80,8 @@ class SqlFluffLineageAnalyzer(LineageAnalyzer):
     def _list_specific_statement_segment(self, sql: str):
         try:
             parsed = Linter(config=self._sqlfluff_config).parse_string(sql)
+            # templating can fail without any lex/parse violation, leaving no parse tree at all
+            parsed.tree
         except Exception as e:
             # sqlfluff itself gave up on this text, e.g. unbalanced templating markers like {{ or {%
             raise InvalidSyntaxException(
